@@ -340,7 +340,11 @@ func genC25Send(g *Gen) {
 		tamper = "none"
 	case 1: // single bit flip of a covered field / ciphertext / msg key
 		f := c25Tampers[g.R.Intn(len(c25Tampers))]
-		tamper = fmt.Sprintf("f:%s:%d:%d", f, g.R.Intn(4096), g.R.Intn(32))
+		bit := g.R.Intn(32)
+		if g.R.Chance(25) {
+			bit = 5 // the ASCII case bit: 'a'..'f' <-> 'A'..'F' in the hex msg key, upper/lower case in ids and base64 text
+		}
+		tamper = fmt.Sprintf("f:%s:%d:%d", f, g.R.Intn(4096), bit)
 	case 2: // single byte deleted / inserted
 		f := c25Tampers[g.R.Intn(4)]
 		if g.R.Bool() {
